@@ -570,3 +570,206 @@ theorem handleAll_events_sorted (nxt : σ → K → σ × Option K) (atol t : K)
 
 end
 end PdeVerif.Controller
+
+namespace PdeVerif.Controller
+open PdeVerif
+
+section
+variable {K : Type} [Field K] [LinearOrder K] [IsStrictOrderedRing K] [FloorRing K]
+variable {S σ : Type}
+
+/-! ### positional facts: the tracker at list position `j` and its calls -/
+
+/-- times of the calls of the tracker at list position `j` -/
+def callsOf (j : Nat) (trace : List (Event K S)) : List K :=
+  (trace.filter (fun e => e.1 = j)).map (fun e => e.2.1)
+
+/-- states shown to the tracker at list position `j` -/
+def seenBy (j : Nat) (trace : List (Event K S)) : List S :=
+  (trace.filter (fun e => e.1 = j)).map (fun e => e.2.2)
+
+theorem callsOf_append (j : Nat) (a b : List (Event K S)) :
+    callsOf j (a ++ b) = callsOf j a ++ callsOf j b := by
+  unfold callsOf; rw [List.filter_append, List.map_append]
+
+theorem seenBy_append (j : Nat) (a b : List (Event K S)) :
+    seenBy j (a ++ b) = seenBy j a ++ seenBy j b := by
+  unfold seenBy; rw [List.filter_append, List.map_append]
+
+theorem filter_idx_nil_of_lt (j : Nat) (ev : List (Event K S)) (h : ∀ e ∈ ev, j < e.1) :
+    ev.filter (fun e => e.1 = j) = [] := by
+  rw [List.filter_eq_nil_iff]
+  intro e he
+  have := h e he
+  simp only [decide_eq_true_eq]
+  omega
+
+theorem handleAll_cons_events (nxt : σ → K → σ × Option K) (atol t : K) (u : S) (i : Nat)
+    (tr0 : Tracker K S σ) (rest : List (Tracker K S σ)) :
+    (handleAll nxt atol t u i (tr0 :: rest)).2.1 =
+      if isDue tr0.due atol t then (i, t, u) :: (handleAll nxt atol t u (i + 1) rest).2.1
+      else (handleAll nxt atol t u (i + 1) rest).2.1 := by
+  conv_lhs => unfold handleAll
+  split_ifs <;> rfl
+
+/-- the calls made to the tracker at position `j` by one `handle` of the collection: one call at
+`(t, u)` if it is due, none otherwise -/
+theorem handleAll_filter_idx (nxt : σ → K → σ × Option K) (atol t : K) (u : S) :
+    ∀ (trs : List (Tracker K S σ)) (i j : Nat) (tr : Tracker K S σ), trs[j]? = some tr →
+      (handleAll nxt atol t u i trs).2.1.filter (fun e => e.1 = i + j) =
+        if isDue tr.due atol t then [(i + j, t, u)] else [] := by
+  intro trs
+  induction trs with
+  | nil => intro i j tr h; simp at h
+  | cons tr0 rest ih =>
+    intro i j tr h
+    have hrest := (handleAll_events_sorted nxt atol t u rest (i + 1)).2
+    rw [handleAll_cons_events]
+    cases j with
+    | zero =>
+      simp only [List.getElem?_cons_zero, Option.some.injEq] at h
+      subst h
+      have hnil : (handleAll nxt atol t u (i + 1) rest).2.1.filter (fun e => e.1 = i + 0) = [] := by
+        apply filter_idx_nil_of_lt
+        intro e he
+        have := (hrest e he).1
+        omega
+      by_cases hd : isDue tr0.due atol t = true
+      · rw [if_pos hd, if_pos hd, List.filter_cons, hnil]
+        simp
+      · rw [if_neg hd, if_neg hd]; exact hnil
+    | succ j =>
+      simp only [List.getElem?_cons_succ] at h
+      have key := ih (i + 1) j tr h
+      have e : i + 1 + j = i + (j + 1) := by omega
+      rw [e] at key
+      by_cases hd : isDue tr0.due atol t = true
+      · rw [if_pos hd, List.filter_cons]
+        have hne : ¬ (i = i + (j + 1)) := by omega
+        simp only [hne, decide_false, Bool.false_eq_true, if_false]
+        exact key
+      · rw [if_neg hd]; exact key
+
+theorem handleAll_callsOf (nxt : σ → K → σ × Option K) (atol t : K) (u : S)
+    (trs : List (Tracker K S σ)) (j : Nat) (tr : Tracker K S σ) (h : trs[j]? = some tr) :
+    callsOf j (handleAll nxt atol t u 0 trs).2.1 = if isDue tr.due atol t then [t] else [] := by
+  unfold callsOf
+  have := handleAll_filter_idx nxt atol t u trs 0 j tr h
+  rw [Nat.zero_add] at this
+  rw [this]
+  split_ifs <;> rfl
+
+theorem handleAll_seenBy (nxt : σ → K → σ × Option K) (atol t : K) (u : S)
+    (trs : List (Tracker K S σ)) (j : Nat) (tr : Tracker K S σ) (h : trs[j]? = some tr) :
+    seenBy j (handleAll nxt atol t u 0 trs).2.1 = if isDue tr.due atol t then [u] else [] := by
+  unfold seenBy
+  have := handleAll_filter_idx nxt atol t u trs 0 j tr h
+  rw [Nat.zero_add] at this
+  rw [this]
+  split_ifs <;> rfl
+
+/-- the tracker at position `j` after one `handle` of the collection -/
+theorem handleAll_getElem? (nxt : σ → K → σ × Option K) (atol t : K) (u : S)
+    (trs : List (Tracker K S σ)) (i j : Nat) (tr : Tracker K S σ) (h : trs[j]? = some tr) :
+    (handleAll nxt atol t u i trs).1[j]? =
+      some (if isDue tr.due atol t then served nxt t u tr else tr) := by
+  rw [handleAll_trackers, List.getElem?_map, h]; rfl
+
+/-! ### the next action time is not later than any pending time -/
+
+theorem optMin_le_left (a : K) (b : Option K) : ∃ x, optMin (some a) b = some x ∧ x ≤ a := by
+  cases b with
+  | none => exact ⟨a, rfl, le_refl _⟩
+  | some b =>
+    show ∃ x, some (if b < a then b else a) = some x ∧ x ≤ a
+    split_ifs with h
+    · exact ⟨b, rfl, h.le⟩
+    · exact ⟨a, rfl, le_refl _⟩
+
+theorem optMin_le_right (a : Option K) (b : K) : ∃ x, optMin a (some b) = some x ∧ x ≤ b := by
+  cases a with
+  | none => exact ⟨b, rfl, le_refl _⟩
+  | some a =>
+    show ∃ x, some (if b < a then b else a) = some x ∧ x ≤ b
+    split_ifs with h
+    · exact ⟨b, rfl, le_refl _⟩
+    · exact ⟨a, rfl, not_lt.mp h⟩
+
+theorem nextAction_le (trs : List (Tracker K S σ)) :
+    ∀ tr ∈ trs, ∀ d, tr.due = some d → ∃ a, nextAction trs = some a ∧ a ≤ d := by
+  induction trs with
+  | nil => intro tr h; simp at h
+  | cons tr0 rest ih =>
+    intro tr h d hd
+    unfold nextAction
+    rcases List.mem_cons.mp h with rfl | h
+    · rw [hd]; exact optMin_le_left d _
+    · obtain ⟨a, ha, hle⟩ := ih tr h d hd
+      rw [ha]
+      obtain ⟨x, hx, hxa⟩ := optMin_le_right tr0.due a
+      exact ⟨x, hx, le_trans hxa hle⟩
+
+/-- the target of the stepper is not beyond any pending action time -/
+theorem clip_nextAction_le (trs : List (Tracker K S σ)) (tEnd : K) (tr : Tracker K S σ) (h : tr ∈ trs)
+    (d : K) (hd : tr.due = some d) : clip (nextAction trs) tEnd ≤ d := by
+  obtain ⟨a, ha, hle⟩ := nextAction_le trs tr h d hd
+  rw [ha]
+  unfold clip
+  simp only
+  split_ifs with h1
+  · exact le_trans h1.le hle
+  · exact hle
+
+/-- without trackers (or with exhausted schedules only) the stepper goes for `t_end` -/
+theorem clip_none (tEnd : K) : clip (none : Option K) tEnd = tEnd := rfl
+
+/-! ### the step window (appendix A.4) -/
+
+theorem half_mul (x : K) : (half : K) * x = x / 2 := by
+  unfold half; push_cast; ring
+
+/-- stepping from `t` towards a target `s` that is not beyond a pending time `p ≥ t + dt/2` lands
+at most `dt/2` beyond `p` (and at least one step further) -/
+theorem nsteps_window (t s dt p : K) (hdt : 0 < dt) (hs : s ≤ p) (hp : t + dt / 2 ≤ p) :
+    t + (nsteps t s dt : K) * dt ≤ p + dt / 2 := by
+  have hc := nsteps_cast t s dt
+  rcases le_or_gt (roundHE ((s - t) / dt)) 1 with h1 | h1
+  · have : nsteps t s dt = 1 := by
+      have : max 1 (roundHE ((s - t) / dt)) = 1 := max_eq_left h1
+      omega
+    rw [this]; push_cast; linarith
+  · have hn : ((nsteps t s dt : Nat) : Int) = roundHE ((s - t) / dt) := by
+      rw [hc]; exact max_eq_right (by omega)
+    have hK : ((nsteps t s dt : Nat) : K) = ((roundHE ((s - t) / dt) : Int) : K) := by
+      have := congrArg (fun z : Int => (z : K)) hn
+      simpa using this
+    rw [hK]
+    have h := roundHE_le_add_half ((s - t) / dt)
+    have : ((roundHE ((s - t) / dt) : Int) : K) * dt ≤ ((s - t) / dt + 1 / 2) * dt :=
+      mul_le_mul_of_nonneg_right h hdt.le
+    have e : ((s - t) / dt + 1 / 2) * dt = (s - t) + dt / 2 := by field_simp
+    linarith
+
+/-- a target at least `dt/2` ahead is approached to within `dt/2` from below as well -/
+theorem nsteps_window_lower (t s dt : K) (hdt : 0 < dt) :
+    s - dt / 2 ≤ t + (nsteps t s dt : K) * dt ∨ (nsteps t s dt = 1) := by
+  have hc := nsteps_cast t s dt
+  rcases le_or_gt (roundHE ((s - t) / dt)) 1 with h1 | h1
+  · right
+    have : max 1 (roundHE ((s - t) / dt)) = 1 := max_eq_left h1
+    omega
+  · left
+    have hn : ((nsteps t s dt : Nat) : Int) = roundHE ((s - t) / dt) := by
+      rw [hc]; exact max_eq_right (by omega)
+    have hK : ((nsteps t s dt : Nat) : K) = ((roundHE ((s - t) / dt) : Int) : K) := by
+      have := congrArg (fun z : Int => (z : K)) hn
+      simpa using this
+    rw [hK]
+    have h := roundHE_ge_sub_half ((s - t) / dt)
+    have : ((s - t) / dt - 1 / 2) * dt ≤ ((roundHE ((s - t) / dt) : Int) : K) * dt :=
+      mul_le_mul_of_nonneg_right h hdt.le
+    have e : ((s - t) / dt - 1 / 2) * dt = (s - t) - dt / 2 := by field_simp
+    linarith
+
+end
+end PdeVerif.Controller
